@@ -91,7 +91,8 @@ def prep_run_physical(
     )
     plan = prune_source_literals(plan, inplace=inplace)
     retry = retry or identity
-    progress_observer = progress_observer or NullProgressObserver()
+    if progress_observer is None:
+        progress_observer = NullProgressObserver()
 
     def process(node):
         if type(node) is Call:
